@@ -58,7 +58,7 @@ def run_variant(prop, var):
             p.write_text(s.replace(old, new))
         env = dict(os.environ, CIJ_REPO=str(tmp), CIJSA_EVIDENCE_DIR=str(tmp / "evidence"), CIJSA_NO_SELFTEST="1")
         r = subprocess.run([sys.executable, "-B", "-m", "cijsa", prop, "--tier", "quick"], cwd=VERIF, env=env,
-                           capture_output=True, text=True, timeout=600)
+                           capture_output=True, text=True, timeout=2400)
         out = r.stdout + r.stderr
         want = var.get("expect", "violation")
         if want == "violation":
